@@ -21,7 +21,7 @@ RULE = ("For generated valid objects of all seven formats (composeinfo, images, 
         "exist. After every dump that raised, the bytes at the path must equal the bytes before (or the path must still not "
         "exist) and the directory must hold no stray file; with no fault the dump must succeed and change the file. One "
         "evaluation = one (object, fault point, k, destination state) trial; non-trivial = the fault fired after the "
-        "top-level validation had passed (inside a nested writer); distinct = object hash + fault point. Also planted: values no validator looks at and no writer can write (non-string image name, a frozenset in a payload), and a size class of large objects (25 000 / 70 000 manifest entries, thousands of images / variants) for size-dependent writer paths.")
+        "top-level validation had passed (inside a nested writer); distinct = object hash + fault point. Also planted: values no validator looks at and no writer can write (non-string image name, a frozenset in a payload), and a size class of large objects (25 000 / 70 000 manifest entries, thousands of images / variants) for size-dependent writer paths. Destinations are also hard-linked, symlinked, spelled as os.PathLike, or handed over as a stream opened for update.")
 ASSUMPTIONS = ["faults are injected by shadowing the validator on the instance inside the harness process; no hook in productmd is needed",
                "a failure of json/ConfigParser serialisation itself (non-serialisable payload) is not a validation failure and is not injected"]
 FLOORS = {"distinct_nontrivial": 1500, "composeinfo": 200, "images": 200, "treeinfo": 200, "rpms": 20, "modules": 20, "extra_files": 20}
@@ -286,6 +286,12 @@ def images_case(desc):
     for img in imgs[:3]:
         plants.append(("image[%s].checksums[md5]=unwritable" % img.path, ) + _swap_item(img.checksums, "md5", UNWRITABLE))
         plants.append(("image[%s].volume_id=unencodable" % img.path, ) + _swap(img, "volume_id", UNENCODABLE))
+    # cells filed directly in the public mapping under keys add() would refuse: written as they are, not readable again
+    for variant in list(obj.images)[:2]:
+        cell = next(iter(obj.images[variant].values()), None)
+        if cell:
+            plants.append(("images[%s][src] set directly" % variant, ) + _swap_item(obj.images[variant], "src", set(cell)))
+            plants.append(("images[%s][bogus-arch] set directly" % variant, ) + _swap_item(obj.images[variant], "bogus-arch", set(cell)))
     u2, t2 = real_invalid_trials("images", obj, obj.dump, plants)
     return _result("images", units + u2, trials + t2)
 
@@ -384,7 +390,11 @@ def discinfo_case(case):
         obj.description = obj.description + "X"
     units, trials = run_trials("discinfo", obj, obj.dump, change)
     plants = [("timestamp", ) + _swap(obj, "timestamp", 0), ("description", ) + _swap(obj, "description", ""), ("disc_numbers", ) + _swap(obj, "disc_numbers", []),
-              ("description=unencodable", ) + _swap(obj, "description", UNENCODABLE)]
+              ("description=unencodable", ) + _swap(obj, "description", UNENCODABLE),
+              # values every outward check lets through but that do not survive the trip (whether they must be refused is C06's
+              # question; if a dump does fail on them - before, while or AFTER writing - the destination is as it was)
+              ("description=blank-not-empty", ) + _swap(obj, "description", " \t"), ("arch=blank-not-empty", ) + _swap(obj, "arch", " "),
+              ("disc_numbers=[text]", ) + _swap(obj, "disc_numbers", ["x"]), ("description=two-lines", ) + _swap(obj, "description", "a\nb")]
     u2, t2 = real_invalid_trials("discinfo", obj, obj.dump, plants)
     return _result("discinfo", units + u2, trials + t2)
 
